@@ -161,6 +161,20 @@ func genScript(rt *rapid.T, transport string) Script {
 		}
 		s.Steps = append(s.Steps, st)
 	}
+	// A shape generated on purpose: a call is parked, a batch that re-uses its id next to fresh ones arrives
+	// (the streamable transport refuses the whole POST), and the peer then retries one of the fresh ids by itself.
+	if batchOK && rapid.IntRange(0, 5).Draw(rt, "refused_batch_macro") == 0 {
+		x, y, z := genID(rt), genID(rt), genID(rt)
+		if x != y && x != z && y != z {
+			macro := []Step{
+				{Kind: "send", Envs: []Env{{Method: "tools/call:park", ID: x, Params: "valid", Gate: rapid.IntRange(0, 5).Draw(rt, "macro_gate")}}},
+				{Kind: "send", Envs: []Env{{Method: "ping", ID: y, Params: "valid"}, {Method: "tools/list", ID: x, Params: "valid"}, {Method: "ping", ID: z, Params: "valid"}}},
+				{Kind: "send", Envs: []Env{{Method: rapid.SampledFrom([]string{"ping", "tools/list", "tools/call:fast"}).Draw(rt, "macro_retry"), ID: rapid.SampledFrom([]string{y, z}).Draw(rt, "macro_retry_id"), Params: "valid"}}},
+			}
+			pos := rapid.IntRange(0, len(s.Steps)).Draw(rt, "macro_pos")
+			s.Steps = append(s.Steps[:pos:pos], append(macro, s.Steps[pos:]...)...)
+		}
+	}
 	return s
 }
 
